@@ -156,7 +156,7 @@ def jobs():
 
 class Result(object):
     """What one executed schedule produced."""
-    __slots__ = ('violations', 'log', 'stats', 'sched_sig', 'nontrivial', 'sim_events', 'steps')
+    __slots__ = ('violations', 'log', 'stats', 'sched_sig', 'nontrivial', 'sim_events', 'steps', 'fixed_digest')
 
     def __init__(self):
         self.violations = []        # list of dict(sig=str, clause=str, detail=str)
@@ -166,6 +166,7 @@ class Result(object):
         self.nontrivial = False
         self.sim_events = 0         # delivery events / operations executed ("simulated time")
         self.steps = 0              # library line-steps under the step clock (0 if clock off)
+        self.fixed_digest = None    # set when the run was executed in a forked child
 
     def event(self, *fields):
         self.sim_events += 1
@@ -183,7 +184,64 @@ class Result(object):
         self.note('VIOLATION', sig)
 
     def digest(self):
-        return self.log.hexdigest()
+        return self.fixed_digest or self.log.hexdigest()
+
+    def to_wire(self):
+        return {'violations': self.violations, 'digest': self.digest(), 'stats': dict(self.stats),
+                'sched_sig': self.sched_sig, 'nontrivial': self.nontrivial, 'sim_events': self.sim_events,
+                'steps': self.steps}
+
+    @classmethod
+    def from_wire(cls, data):
+        res = cls()
+        res.violations = data['violations']
+        res.fixed_digest = data['digest']
+        res.stats = collections.Counter(data['stats'])
+        res.sched_sig = data['sched_sig']
+        res.nontrivial = data['nontrivial']
+        res.sim_events = data['sim_events']
+        res.steps = data['steps']
+        return res
+
+
+def run_isolated(module, doc):
+    """Execute one schedule in a forked child so that whatever it does to process-global state
+    (shared default objects, class attributes) cannot leak into later runs of this worker."""
+    import pickle
+    read_fd, write_fd = os.pipe()
+    pid = os.fork()
+    if pid == 0:
+        code = 0
+        try:
+            os.close(read_fd)
+            try:
+                payload = ('ok', module.execute(doc).to_wire())
+            except HarnessError as exc:
+                payload = ('harness', str(exc))
+            except RunTimeout:
+                payload = ('timeout', None)
+            except BaseException:  # pylint: disable=broad-except
+                payload = ('crash', traceback.format_exc())
+            with os.fdopen(write_fd, 'wb') as handle:
+                pickle.dump(payload, handle)
+        except BaseException:  # pylint: disable=broad-except
+            code = 1
+        finally:
+            os._exit(code)  # pylint: disable=protected-access
+    os.close(write_fd)
+    with os.fdopen(read_fd, 'rb') as handle:
+        blob = handle.read()
+    os.waitpid(pid, 0)
+    if not blob:
+        raise HarnessError('isolated run died without a result')
+    status, data = pickle.loads(blob)
+    if status == 'ok':
+        return Result.from_wire(data)
+    if status == 'timeout':
+        raise RunTimeout()
+    if status == 'harness':
+        raise HarnessError(data)
+    raise HarnessError('isolated run crashed in the harness:\n%s' % data)
 
 
 def _alarm_handler(signum, frame):  # pylint: disable=unused-argument
@@ -199,6 +257,9 @@ def guarded_execute(module, doc):
     old = signal.signal(signal.SIGALRM, _alarm_handler)
     signal.alarm(RUN_WALL_LIMIT)
     try:
+        isolate = getattr(module, 'needs_isolation', None)
+        if isolate is not None and isolate(doc):
+            return run_isolated(module, doc)
         return module.execute(doc)
     except RunTimeout:
         res = Result()
